@@ -1,5 +1,5 @@
 (* Properties_C20.v — property C20 (API-specific diagnostics are about the real API) for modelled checkers. *)
-From GC Require Import Base GoAst Model_Checkers Proofs_Checkers Proofs_Witnesses.
+From GC Require Import Base GoAst Model_Checkers Model_Checkers_Prefix Proofs_Checkers Proofs_Witnesses.
 
 Theorem C20_flagName_real : forall f w, In w (warnings (run_flagName f)) -> w_callee w = OPkgName "flag" /\ is_real w = true.
 Proof. exact flagName_real. Qed.
@@ -37,8 +37,6 @@ Theorem C20_flagName_silent_on_namesakes : wf Witnesses.ns_flag_pkgvar = true /\
 Proof. exact flagName_silent_on_namesakes. Qed.
 Print Assumptions C20_flagName_silent_on_namesakes.
 
-(* link to C01: the crash witnesses of appendCombine/appendAssign, newDeref and the regexp checkers are namesakes *)
-Theorem C20_namesake_is_root_of_crash : forallb (g_no_namesake_bare "append") (all_nodes Witnesses.w_append_zero) = false /\ forallb (g_no_namesake_bare "new") (all_nodes Witnesses.w_new_zero) = false /\ forallb (g_no_namesake_qual "regexp" "regexp") (all_nodes Witnesses.w_regexp_zero) = false.
-Proof. exact (conj append_crash_witness_is_namesake (conj new_crash_witness_is_namesake regexp_crash_witness_is_namesake)). Qed.
-Print Assumptions C20_namesake_is_root_of_crash.
-
+Example C20_no_namesake_satisfiable :
+  wf Witnesses.ns_filepath_alias = true /\ forallb (g_no_namesake_bare "new") (all_nodes Witnesses.ns_filepath_alias) = true.
+Proof. exact no_namesake_satisfiable. Qed.
